@@ -32,14 +32,14 @@ type Group struct{}
 
 func NewGroup() *Group { return groupInstance }
 
-func (*Group) Name() string               { return "toyGq" }
-func (*Group) Order() cardinal.Cardinal   { return cardinal.New(Q) }
-func (*Group) ElementSize() int           { return ElemBytes }
-func (*Group) Contains(e *Elem) bool      { return e != nil && InSubgroup(e.v) }
-func (*Group) OpIdentity() *Elem          { return &Elem{v: 1} }
-func (*Group) Generator() *Elem           { return &Elem{v: G} }
+func (*Group) Name() string                                { return "toyGq" }
+func (*Group) Order() cardinal.Cardinal                    { return cardinal.New(Q) }
+func (*Group) ElementSize() int                            { return ElemBytes }
+func (*Group) Contains(e *Elem) bool                       { return e != nil && InSubgroup(e.v) }
+func (*Group) OpIdentity() *Elem                           { return &Elem{v: 1} }
+func (*Group) Generator() *Elem                            { return &Elem{v: G} }
 func (*Group) ScalarStructure() algebra.Structure[*Scalar] { return NewScalarField() }
-func (*Group) ScalarBaseOp(s *Scalar) *Elem { return &Elem{v: powmod(G, s.V.v, P)} }
+func (*Group) ScalarBaseOp(s *Scalar) *Elem                { return &Elem{v: powmod(G, s.V.v, P)} }
 
 func (*Group) FromBytes(data []byte) (*Elem, error) {
 	if len(data) != ElemBytes {
@@ -73,7 +73,7 @@ func FromLog(k uint64) *Elem { return &Elem{v: powmod(G, k%Q, P)} }
 type Elem struct{ v uint64 }
 
 func (*Elem) Structure() algebra.Structure[*Elem] { return NewGroup() }
-func (e *Elem) Value() uint64                      { return e.v }
+func (e *Elem) Value() uint64                     { return e.v }
 
 // Log returns the discrete logarithm of e (table lookup). In Big mode (no table) it returns an interned token
 // instead: equal elements <=> equal token, which is all the token-level specifications use.
@@ -93,15 +93,15 @@ func (e *Elem) Bytes() []byte {
 	binary.BigEndian.PutUint64(out, e.v)
 	return out
 }
-func (e *Elem) Clone() *Elem             { return &Elem{v: e.v} }
-func (e *Elem) Equal(x *Elem) bool       { return e.v == x.v }
-func (e *Elem) HashCode() base.HashCode  { return base.HashCode(e.v * 0x9E3779B97F4A7C15) }
-func (e *Elem) String() string           { return fmt.Sprintf("toy(%d)", e.v) }
-func (e *Elem) Op(x *Elem) *Elem         { return &Elem{v: mulmod(e.v, x.v, P)} }
-func (e *Elem) OpInv() *Elem             { return &Elem{v: powmod(e.v, P-2, P)} }
-func (e *Elem) IsOpIdentity() bool       { return e.v == 1 }
-func (e *Elem) ScalarOp(s *Scalar) *Elem { return &Elem{v: powmod(e.v, s.V.v, P)} }
-func (e *Elem) IsTorsionFree() bool      { return InSubgroup(e.v) }
+func (e *Elem) Clone() *Elem                { return &Elem{v: e.v} }
+func (e *Elem) Equal(x *Elem) bool          { return e.v == x.v }
+func (e *Elem) HashCode() base.HashCode     { return base.HashCode(e.v * 0x9E3779B97F4A7C15) }
+func (e *Elem) String() string              { return fmt.Sprintf("toy(%d)", e.v) }
+func (e *Elem) Op(x *Elem) *Elem            { return &Elem{v: mulmod(e.v, x.v, P)} }
+func (e *Elem) OpInv() *Elem                { return &Elem{v: powmod(e.v, P-2, P)} }
+func (e *Elem) IsOpIdentity() bool          { return e.v == 1 }
+func (e *Elem) ScalarOp(s *Scalar) *Elem    { return &Elem{v: powmod(e.v, s.V.v, P)} }
+func (e *Elem) IsTorsionFree() bool         { return InSubgroup(e.v) }
 func (e *Elem) IsDesignatedGenerator() bool { return e.v == G }
 
 func (e *Elem) MarshalBinary() ([]byte, error) { return e.Bytes(), nil }
